@@ -111,3 +111,9 @@ def compat_tag_duplicates(rec, meta):
         if dict((mp, norm(mp, ls)) for mp, ls in t.items()) != ref:
             return False
     return True
+
+
+def apparent_size_assertion(rec, meta):
+    """F38: the deliberate assertion in update_entry_for_path that the apparent and the real size agree."""
+    return rec.get('exc') == 'AssertionError' and rec.get('cmd') in ('update', 'create') \
+        and 'Apparent size' in (meta or {}).get('tb', '') and 'real size' in (meta or {}).get('tb', '')
